@@ -412,14 +412,14 @@ def main(run: Run):
 # ------------------------------------------------------------------------------------------------
 
 def replay(run: Run, data):
+    """re-execute one stored case: the operation `op` at `level` on the raw operands (a, b)"""
     op = g.to_op(data["op"])
     a, b = data["a"], data["b"]
     lvl = data["level"]
     if lvl == "py":
         status, out = g.py_run(op, a, b)
     else:
-        pst = run_py(op)
-        shape = result_shape(op, pst)
+        shape = result_shape(op, run_py(op))
         if shape is None:
             print("cannot rebuild the wrapper: result format unknown")
             return True
@@ -427,21 +427,23 @@ def replay(run: Run, data):
         if sim is None:
             status, out = "exc", err
         else:
-            st = OpStat(op, "hw")
-            e = simulate(sim, [op], [shape], [st])
-            if e is not None:
-                status, out = "exc", e
-            else:
-                st2 = OpStat(op, "hw")
-                # pick the stored input
-                wa, wb = g.op_inputs(op)
+            from ..vhdl import rt
+            wa, wb = g.op_inputs(op)
+            try:
                 if wa:
                     sim.set("a", a)
                 if wb:
                     sim.set("b", b)
                 v = sim.get("o0")
-                out = ("undefined",) if v is None else (("bool", bool(v)) if shape[0] == "bool" else ("fixed",) + tuple(shape[1:]) + (int(v),))
                 status = "ok"
+                if v is None:
+                    out = ("undefined",)
+                elif shape[0] == "bool":
+                    out = ("bool", bool(v))
+                else:
+                    out = ("fixed",) + tuple(shape[1:]) + (int(v),)
+            except rt.SimError as e:
+                status, out = "exc", f"SimError: {e}"
     if status == "exc":
         if g.must_accept(op):
             print(f"reproduced: {lvl} {g.op_key(op)} rejected: {out}")
